@@ -114,6 +114,14 @@ def gen_network(rng, profile):
                 # any order (the code must not rely on the lists being sorted)
                 s[key] = rng.sample(range(dom), rng.randint(1, max(1, dom - 1)))
         scen.append(s)
+    # a service list with a REPEATED service (legal: the loader does not deduplicate): its length can equal the number of services
+    # of the data although it does not name them all - anything that tests "keeps every service" by size is fooled
+    # (added after seeded change C11-r4 was missed)
+    if nsv >= 2 and rng.random() < 0.5:
+        keep = rng.sample(range(nsv), nsv - 1)
+        sv = keep + [rng.choice(keep)] * (nsv - len(keep))
+        rng.shuffle(sv)
+        scen.append(dict(services=sv, onlyLines=[], exceptLines=[], onlyAgencies=[], exceptAgencies=[], onlyModes=[], exceptModes=[]))
     # twins: a scenario that differs from an existing one in exactly ONE of its seven lists (anything that identifies a
     # scenario by part of its definition - a cache key, a comparison - confuses the two)
     if rng.random() < 0.5:
